@@ -1,2 +1,12 @@
 import WrglModel.Props.C13
-#print axioms Wrgl.C13_placeholder
+#print axioms Wrgl.C13_fact_insertBlock
+#print axioms Wrgl.C13_fact_ingest
+#print axioms Wrgl.C13_fact_commitCmd
+#print axioms Wrgl.C13_fact_receiveTable
+#print axioms Wrgl.C13_fact_indexTable
+#print axioms Wrgl.C13_fact_mergeCommit
+#print axioms Wrgl.C13_fact_prune
+#print axioms Wrgl.C13_prefix_consistent
+#print axioms Wrgl.C13_commit_prefix_consistent
+#print axioms Wrgl.C13_receive_prefix_consistent
+#print axioms Wrgl.C13_table_first_is_unsafe
